@@ -126,8 +126,33 @@ package runner
 //@   requires r != nil
 //@   ensures  result != nil
 
+// C05 (soundness half): request edges and reachability as ghost relations.
+//   req(a,b)   - target a published b in its waiting list during this build
+//   reach(a,b) - reflexive-transitive closure of req (axiomatised below)
+//   pub        - roots whose waiting list is currently published by this goroutine
+//@ ghost pub refset threadlocal = ref_empty()
+//@ specfn req(ref, ref) bool
+//@ specfn reach(ref, ref) bool
+//@ smt <<<
+//@ (declare-fun req (Ref Ref) Bool)
+//@ (declare-fun reach (Ref Ref) Bool)
+//@ (assert (forall ((a Ref)) (! (reach a a) :pattern ((reach a a)))))
+//@ (assert (forall ((a Ref) (b Ref) (c Ref)) (! (=> (and (req a b) (reach b c)) (reach a c)) :pattern ((req a b) (reach b c)))))
+//@ >>>
+
 //@ func (*runner.engine).checkDeps
+//@   requires e != nil && e.root != nil
+//@   requires nonnil: forall j: int :: 0 <= j && j < len(deps) ==> deps[j] != nil
+//@   requires published: pub[e.root]
+//@   ensures  sound: result != nil ==> (exists j: int :: 0 <= j && j < len(deps) && reach(deps[j], e.root))
+//@   ensures  kind: result != nil ==> istype(result, "runner.CyclicDependencyError")
+//@   loop 0: invariant true
+
 //@ func (*runner.engine).check
+//@   requires e != nil && e.root != nil && dep != nil
+//@   requires published: pub[e.root]
+//@   ensures  sound: result != nil ==> reach(dep, e.root)
+//@   ensures  kind: result != nil ==> istype(result, "runner.CyclicDependencyError")
 
 //@ func (*runner.engine).EvaluateTargets
 //@   requires e != nil && e.runner != nil && e.runner.gate != nil && e.root != nil
@@ -136,6 +161,8 @@ package runner
 //@   requires nolocks: (forall g: *runner.gate :: !holds(g.m)) && (forall x: *runner.target :: !holds(x.m))
 //@   ensures  permit: held == 1
 //@   ensures  tokens: claimed == old(claimed)
+//@   ensures  unpublished: pub == old(pub)
+//@   requires !pub[e.root]
 //@   ensures  len(result) == len(labels)
 //@   modifies heap
 //@   loop 0: invariant held == 0 && claimed == old(claimed) && len(targets) == len(labels)
@@ -143,6 +170,8 @@ package runner
 //@   loop 1: invariant held == 0 && claimed == old(claimed)
 //@   loop 2: invariant held == 0 && claimed == old(claimed)
 //@   loop 2: invariant forall j: int :: 0 <= j && j < len(targets) ==> (targets[j] != nil && targets[j].status >= 1)
+//@   loop 2: invariant len(results) == len(targets)
+//@   loop 2: invariant outcome: forall j: int :: 0 <= j && j <= rangeindex ==> (targets[j].status >= 2 && results[j].Error == targets[j].err && results[j].Target == targets[j].target)
 
 //@ func runner.Run
 //@   requires held == 0
